@@ -23,7 +23,7 @@ import (
 	"pgregory.net/rapid"
 )
 
-var vfC04Names = []string{"a", "b", "c", "d", "e", "f", "g"}
+var vfC04Names = []string{"a", "b", "c", "d", "e", "f", "g", "h", "i"}
 
 func vfC04MustAddrs(ss ...string) (as []netip.Addr) {
 	for _, s := range ss {
@@ -475,7 +475,7 @@ func (mc *vfC04Machine) actAdd(t *rapid.T) {
 func (mc *vfC04Machine) actUpdate(t *rapid.T) {
 	m := mc.sys.m
 	names := m.names()
-	if len(names) == 0 || rapid.IntRange(0, 11).Draw(t, "upd_missing") == 0 {
+	if len(names) == 0 || rapid.IntRange(0, 15).Draw(t, "upd_missing") == 7 {
 		// update of a name that does not exist
 		var free []string
 		for _, n := range vfC04Names {
